@@ -36,6 +36,10 @@ struct State {
 };
 inline State S;
 inline thread_local int t_tid = -1;
+// called before the scheduler reports a fatal condition: lets the harness leave the instrumented mode first
+// (reporting allocates; with tracked operators switched on that would re-enter the code under test)
+inline void (*on_fatal)() = nullptr;
+inline void fatal(const char* sig, const char* detail) { if (on_fatal) on_fatal(); vf::fail(sig, detail); vf::abandon_case(); }
 
 inline int self() { return t_tid < 0 ? MAIN_TID : t_tid; }
 inline int live_threads() { int k = 0; for (int i = 0; i < S.n; i++) if (S.st[i] != DONE) k++; return k; }
@@ -62,7 +66,7 @@ inline void switch_to(int next) {
 inline void yield_point(const char* tag) {
     if (!S.active || t_tid < 0) return;
     S.last_tag[t_tid] = tag;
-    if (++S.points > 200000) { vf::fail("sched/livelock", "more than 200000 scheduling points in one execution"); vf::abandon_case(); }
+    if (++S.points > 200000) fatal("sched/livelock", "more than 200000 scheduling points in one execution");
     int next = pick_next(true);
     if (next != t_tid) switch_to(next);
 }
@@ -70,15 +74,15 @@ inline void yield_point(const char* tag) {
 inline void lock(Mutex* m) {
     int me = self();
     if (!S.active || t_tid < 0) {
-        if (m->owner == me) { vf::fail("mutex/self-deadlock", "lock() on a mutex already held by the calling (only) thread: a real mutex would hang here"); vf::abandon_case(); }
+        if (m->owner == me) fatal("mutex/self-deadlock", "lock() on a mutex already held by the calling (only) thread: a real mutex would hang here");
         m->owner = me; m->acquisitions++; return;
     }
     yield_point("lock");
     while (m->owner != -1) {
-        if (m->owner == me) { vf::fail("mutex/self-deadlock", "lock() on a mutex already held by the calling thread"); vf::abandon_case(); }
+        if (m->owner == me) fatal("mutex/self-deadlock", "lock() on a mutex already held by the calling thread");
         S.st[me] = BLOCKED; S.waiting[me] = m;
         int next = pick_next(false);
-        if (next < 0) { S.deadlock = true; vf::fail("sched/deadlock", "no enabled thread: every live thread is blocked on a mutex"); vf::abandon_case(); }
+        if (next < 0) { S.deadlock = true; fatal("sched/deadlock", "no enabled thread: every live thread is blocked on a mutex"); }
         switch_to(next);
     }
     m->owner = me; m->acquisitions++;
